@@ -1,7 +1,7 @@
 (* C08 — static file responses return exactly the requested bytes (range arithmetic). *)
 From Coq Require Import String.
 From Coq Require Import List Strings.Byte NArith ZArith Bool.
-Require Import Bytes Show Res Tables Range RangeProofs DecProofs FsSliceProofs.
+Require Import Bytes Show Res Tables Range RangeProofs DecProofs UintWrap FsSliceProofs.
 Import ListNotations.
 Open Scope Z_scope.
 
@@ -34,6 +34,38 @@ Print Assumptions C08_range_rfc_suffix.
 Theorem C08_uint_roundtrip : forall n : Z, 0 <= n < two63 -> parse_uint (show_Z n) = Some n.
 Proof. exact parse_uint_show. Qed.
 Print Assumptions C08_uint_roundtrip.
+
+(* Numerals of ANY size, including those whose 64-bit wrap ParseUintBuf's overflow test misses (D20):
+   whatever ParseUint returns is a non-negative int64 that either is the true value of the numeral or
+   else is at least 2^63/10 while the true value is at least 2^63. *)
+Theorem C08_uint_any_numeral : forall s w, parse_uint s = Some w ->
+  Forall is_digit s /\ 0 <= w < two63 /\ (w = val_from 0 s \/ (wrap_floor <= w /\ two63 <= val_from 0 s)).
+Proof. exact parse_uint_any. Qed.
+Print Assumptions C08_uint_any_numeral.
+
+(* Hence for every representation shorter than 2^63/10 bytes and numerals with ANY number of digits:
+   a range the parser accepts is the RFC 7233 range of the true numbers (an undetected wrap can never
+   select wrong bytes; detected overflow only rejects). *)
+Theorem C08_range_any_numeral_ab : forall da db len r,
+  Forall is_digit da -> da <> [] -> Forall is_digit db -> db <> [] -> 0 <= len < wrap_floor ->
+  parse_byte_range (R_raw da db) len = Some r ->
+  Some r = spec_opt (rfc_range (Some (val_from 0 da)) (Some (val_from 0 db)) len).
+Proof. exact range_any_numeral_ab. Qed.
+Theorem C08_range_any_numeral_a : forall da len r, Forall is_digit da -> da <> [] -> 0 <= len < wrap_floor ->
+  parse_byte_range (str_bytes ++ cEqual :: da ++ [cDash]) len = Some r ->
+  Some r = spec_opt (rfc_range (Some (val_from 0 da)) None len).
+Proof. exact range_any_numeral_a. Qed.
+Theorem C08_range_any_numeral_suffix : forall dn len r, 0 <= len < wrap_floor ->
+  parse_byte_range (str_bytes ++ cEqual :: cDash :: dn) len = Some r ->
+  Some r = spec_opt (rfc_range None (Some (val_from 0 dn)) len).
+Proof. exact range_any_numeral_suffix. Qed.
+Print Assumptions C08_range_any_numeral_suffix.
+
+Example C08_any_numeral_nonvacuous :
+  parse_uint (B "21000000000000000000") = Some 2553255926290448384 /\
+  parse_byte_range (R_raw (B "1") (B "21000000000000000000")) 5 = Some (1, 4) /\
+  parse_byte_range (str_bytes ++ cEqual :: cDash :: B "21000000000000000000") 5 = Some (0, 4).
+Proof. repeat split; vm_compute; reflexivity. Qed.
 
 (* For EVERY file content and EVERY Range header the handler accepts: the bytes streamed (UpdateByteRange, then
    end-start+1 bytes) are exactly bytes start..end of the file, their number is the Content-Length the handler
